@@ -39,6 +39,42 @@ def _resolve(b, pl, depth=0):
     return loc, path
 
 
+def _reads_with_delegates(prog, b, depth):
+    """parameter -> {(adt, variant): {field: line}} read through that parameter, in b itself and in the checker functions b
+    hands (parts of) the parameter to (a guard factored out into a helper still compares the fields for its caller)"""
+    reads = {}
+    for pl, bi, line in places_read(b):
+        loc, path = _resolve(b, pl)
+        if loc is None:
+            continue
+        for e in path:
+            if e[0] == 'f':
+                reads.setdefault(loc, {}).setdefault((e[1], e[2]), {})[e[3]] = line
+    if depth >= 2:
+        return reads
+    for bl in b.blocks:
+        t = bl.term
+        if bl.cleanup or t[0] != 'call':
+            continue
+        cid = callee(t)[0]
+        g = prog.bodies.get(cid) if cid else None
+        if g is None or g.crate != b.crate or g.id == b.id or g.kind == 'closure':
+            continue
+        greads = None
+        for k, o in enumerate(t[3]):
+            if o[0] not in ('c', 'm'):
+                continue
+            loc, _path = _resolve(b, o[1])
+            if loc is None:
+                continue
+            if greads is None:
+                greads = _reads_with_delegates(prog, g, depth + 1)
+            for key, fields in greads.get(k + 1, {}).items():
+                for fi in fields:
+                    reads.setdefault(loc, {}).setdefault(key, {}).setdefault(fi, t[7])
+    return reads
+
+
 def run(prog, tier, repo):
     res = RuleResult('REL-FIELDS', 'C06: a checker function relating two values of one type reads every identity field (all but '
                      'Reason metadata) of each payload struct it compares, from both sides')
@@ -51,36 +87,51 @@ def run(prog, tier, repo):
                  if tys[i].k == 'adt' and tys[j].k == 'adt' and tys[i].id == tys[j].id and tys[i].id.startswith('samlang_checker::type_')]
         if not pairs:
             continue
-        reads = {}
-        for pl, bi, line in places_read(b):
-            loc, path = _resolve(b, pl)
-            if loc is None:
+        own = _reads_with_delegates(prog, b, 2)       # depth 2 = no delegation: the function's own MIR only
+        reads = _reads_with_delegates(prog, b, 0)
+        # a helper that compares part of the payload for a caller that compares the rest: credit the direct callers' own reads
+        for c in prog.bodies.values():
+            if c.crate != b.crate or c.id == b.id:
                 continue
-            for e in path:
-                if e[0] == 'f':
-                    reads.setdefault(loc, {}).setdefault((e[1], e[2]), {})[e[3]] = line
+            for bl in c.blocks:
+                t = bl.term
+                if bl.cleanup or t[0] != 'call' or callee(t)[0] != b.id:
+                    continue
+                cown = None
+                for k, o in enumerate(t[3]):
+                    if o[0] not in ('c', 'm'):
+                        continue
+                    loc, _path = _resolve(c, o[1])
+                    if loc is None:
+                        continue
+                    if cown is None:
+                        cown = _reads_with_delegates(prog, c, 2)
+                    for key2, fields in cown.get(loc, {}).items():
+                        for fi in fields:
+                            reads.setdefault(k + 1, {}).setdefault(key2, {}).setdefault(fi, t[7])
         for (i, j) in pairs:
             ra, rb = reads.get(i, {}), reads.get(j, {})
-            for (adt_id, var) in sorted(set(ra) & set(rb)):
+            oa, ob = own.get(i, {}), own.get(j, {})
+            for (adt_id, var) in sorted(set(oa) & set(ob)):
                 adt = prog.adts.get(adt_id)
                 if adt is None or var >= len(adt.variants):
                     continue
                 fields = adt.variants[var].fields
                 ident = [k for k, f in enumerate(fields) if not (f.ty.k == 'adt' and f.ty.id.endswith('::Reason'))]
-                both = set(ra[(adt_id, var)]) & set(rb[(adt_id, var)]) & set(ident)
-                if not both:
-                    continue        # not comparing this payload
+                if not (set(oa[(adt_id, var)]) & set(ob[(adt_id, var)]) & set(ident)):
+                    continue        # the function itself does not compare this payload
+                both = set(ra.get((adt_id, var), {})) & set(rb.get((adt_id, var), {})) & set(ident)
                 n_rel += 1
                 sname = adt.name.split('::')[-1] + (f'::{adt.variants[var].name}' if adt.kind == 'enum' else '')
                 for k in ident:
                     fname = fields[k].name
                     key = f'{b.id}:{sname}.{fname}'
                     if k in both:
-                        res.ok(key, b.loc(ra[(adt_id, var)][k]), f'{sname}.{fname} read from both operands')
+                        res.ok(key, b.loc(ra[(adt_id, var)][k]), f'{sname}.{fname} read from both operands (here, in a helper, or in the caller)')
                     elif (b.id, adt.name.split('::')[-1], fname) in EXEMPT:
                         res.ok(key, b.loc(), 'exempt: ' + EXEMPT[(b.id, adt.name.split('::')[-1], fname)])
                     else:
-                        side = 'neither operand' if k not in ra[(adt_id, var)] and k not in rb[(adt_id, var)] else 'only one operand'
+                        side = 'neither operand' if k not in ra.get((adt_id, var), {}) and k not in rb.get((adt_id, var), {}) else 'only one operand'
                         res.violation(key, b.loc(), f'{b.name} relates two {sname} values (it compares ' +
                                       ', '.join(sorted(fields[x].name for x in both)) + f') but reads `{fname}` from {side}: two types '
                                       f'that differ only in `{fname}` are treated as the same type')
